@@ -9,6 +9,7 @@ from __future__ import annotations
 
 import ast
 import datetime
+import os
 import random
 import time
 from fractions import Fraction
@@ -523,9 +524,12 @@ def check_input(reg, c, args):
                 return {"clause": f"must raise when: {cond}", "observed": f"returned {result!r}"[:300]}
         except (NotEvaluable, IndexOutside):
             pass
+    prop = os.environ.get("VERIF_CURRENT_PROP")
     for name, text in c.ensures:
         if name.startswith("def:"):
             continue
+        if not c.clause_relevant(name, prop):
+            continue        # the clause carries another property's statement (Contract.clause_props)
         try:
             if not sp.truth(text):
                 return {"clause": f"{name}: {text}"[:600], "observed": f"result {result!r}"[:400]}
@@ -789,8 +793,10 @@ def search(reg, unit, seed, budget=2000, deadline_s=20):
                 fail["tried"] = tried
                 return fail
         return None
+    xs = getattr(c, "extra_search", None)
+    unit_deadline = deadline_s * (0.5 if xs is not None else 1.0)
     for _ in range(budget):
-        if time.time() - t0 > deadline_s:
+        if time.time() - t0 > unit_deadline:
             break
         try:
             args = {p: gen(sh, rnd) for p, sh in c.params.items() if not isinstance(sh, Conc)}
@@ -808,6 +814,19 @@ def search(reg, unit, seed, budget=2000, deadline_s=20):
             fail["input"] = repr_args(args)
             fail["tried"] = tried
             return fail
+    if xs is not None:
+        # second stage: structured histories through the enclosing real entry point, compared with a
+        # reference written from the property statements (vlib/native_notes.py)
+        n2 = 0
+        while n2 < budget and time.time() - t0 <= deadline_s:
+            n2 += 1
+            try:
+                fail = xs(rnd)
+            except Exception:
+                continue
+            if fail is not None:
+                fail["tried"] = tried + n2
+                return fail
     return None
 
 
